@@ -655,6 +655,11 @@ func (v Int256Value) BitwiseRightShift(context ValueStaticTypeContext, other Int
 		panic(&NegativeShiftError{})
 	}
 	if !o.BigInt.IsUint64() {
+		// All bits are shifted out, only the sign remains (arithmetic shift),
+		// just like for all other shifts by at least the bit size.
+		if v.BigInt.Sign() < 0 {
+			return NewInt256ValueFromInt64(context, -1)
+		}
 		return NewInt256ValueFromInt64(context, 0)
 	}
 
